@@ -221,6 +221,12 @@ def run_counter(job):
             ctx.assume(v >= 0, v < len(VALS))
 
     def body(ctx, out):
+        # a fresh copy of the class per path (nothing carried over between explored paths), and a history inside the path: another
+        # counter of the same process was created and fed before this one - every counter counts its own stream only
+        PCC = loader.load('outrank/algorithms/sketches/counting_counters_ordinary.py', record=[])['PrimitiveConstrainedCounter']
+        other = PCC(B + 1)
+        for v in ('a', 'zz', 7):
+            other.add(v)
         c = PCC(B)
         seen = Counter()
         stream = []
@@ -302,8 +308,13 @@ def replay(w):
             return {'reproduced': True, 'signature': 'C15:bounded-counter-in-pipeline', 'what': f'compute_cardinalities over batches {w["cuts"]} of {w["stream"]} with bound {w["bound"]}: tracked {dict(dc)} vs exact {dict(seen)}'}
         return {'reproduced': False, 'what': 'within contract'}
     if w['cond'] == 'counter':
-        from outrank.algorithms.sketches.counting_counters_ordinary import PrimitiveConstrainedCounter as PCC
+        import importlib
+        import outrank.algorithms.sketches.counting_counters_ordinary as _m
+        PCC = importlib.reload(_m).PrimitiveConstrainedCounter      # a fresh copy of the class, then the same history as explored
         VALS = ['a', 'b', '', 7]
+        other = PCC(w['bound'] + 1)
+        for v in ('a', 'zz', 7):
+            other.add(v)
         c = PCC(w['bound'])
         seen = Counter()
         for i in w['stream']:
@@ -311,7 +322,7 @@ def replay(w):
             seen[VALS[i]] += 1
             dc = c.default_counter
             if any(dc[x] > seen[x] for x in dc) or len(dc) > w['bound'] or (len(seen) < w['bound'] and dict(dc) != dict(seen)):
-                return {'reproduced': True, 'signature': 'C15:bounded-counter', 'what': f'bound {w["bound"]}, stream {[VALS[i] for i in w["stream"]]}: tracked {dict(dc)} vs exact {dict(seen)}'}
+                return {'reproduced': True, 'signature': 'C15:bounded-counter', 'what': f'bound {w["bound"]}, stream {[VALS[i] for i in w["stream"]]} (after another counter of the process was fed a, zz, 7): tracked {dict(dc)} vs exact {dict(seen)}'}
         return {'reproduced': False, 'what': 'counter within its contract'}
     import numpy as np
     from outrank.algorithms.sketches.counting_cms import CountMinSketch
